@@ -1,6 +1,414 @@
-//! C18 — monitor not written yet.
-use crate::ctx::Ctx;
+//! C18 — pay tokens and closing signatures can never stand in for each other.
+//!
+//! (1) nonce generation under RNG streams crafted so that the sampled scalar is the close tag, at
+//! every 64-byte draw of the calls that create nonces; (2) decoded nonces; (3) a valid pay token
+//! offered as closing signature and vice versa; (4) channel-id determinism and single-input
+//! sensitivity.
+
+use crate::ctx::{guard, hex, Ctx};
+use crate::fixtures::{self, Merchant};
+use crate::props::util::*;
+use crate::refs::*;
+use crate::session::{amount, new_channel_id, Sess, Stage};
+use crate::srng::ScriptRng;
+use crate::tracer::trace;
+use crate::wire::{copy, dec, enc};
+use bls12_381::Scalar;
+use rand_core::RngCore;
+use serde_json::json;
+use zkabacus_crypto::{self as zk, customer::ClosingMessage, ChannelId, Context, CustomerRandomness, MerchantRandomness, Verification};
+
+/// 64 bytes that `Scalar::random` maps to the close tag
+fn tag_pattern() -> Vec<u8> {
+    let mut b = close_tag_ref().to_bytes().to_vec();
+    b.extend_from_slice(&[0u8; 32]);
+    b
+}
+
+fn seed_of(rng: &mut impl RngCore) -> [u8; 32] {
+    let mut s = [0u8; 32];
+    rng.fill_bytes(&mut s);
+    s
+}
+
+fn is_tag(b: &[u8]) -> bool {
+    b == close_tag_ref().to_bytes()
+}
+
+fn nonce_generation(c: &mut Ctx) {
+    c.case("nonce/test_new_nonce", |c| {
+        let mut rng = c.rng("nonce/test_new_nonce");
+        // self-check of the pattern: it really samples the close tag
+        {
+            use ff::Field;
+            let mut r = ScriptRng::new([1u8; 32]);
+            r.inject(0, tag_pattern());
+            if Scalar::random(&mut r) != close_tag_ref() {
+                return c.inconclusive("C18: the crafted pattern does not sample the close tag");
+            }
+        }
+        for run in 0..c.tier.pick(40, 400) {
+            let k = 1 + run % 4; // tag sampled k times in a row
+            let mut r = ScriptRng::new(seed_of(&mut rng));
+            for i in 0..k {
+                r.inject(i, tag_pattern());
+            }
+            c.eval();
+            c.distinct(&format!("test_new_nonce/{}in-a-row/{}", k, run));
+            let n = zk::internal::test_new_nonce(&mut r);
+            let nb = enc(&n);
+            if r.consumed != k || r.misaligned != 0 {
+                c.inconclusive("C18: injection not consumed by test_new_nonce");
+                continue;
+            }
+            c.count("nonce_generations_with_tag_sampled", 1);
+            if is_tag(&nb) {
+                c.violation("C18 generated-nonce-equals-close-tag call=test_new_nonce", json!({"in_a_row": k, "draws": r.draws()}));
+            } else if r.draws() != k + 1 {
+                // the rejection path must have been taken: one extra draw per rejected sample
+                c.violation("C18 close-tag-sample-not-redrawn call=test_new_nonce", json!({"in_a_row": k, "draws": r.draws(), "nonce": hex(&nb)}));
+            }
+        }
+        // decoded nonces
+        c.eval();
+        c.distinct("decode/close-tag");
+        if dec::<zk::Nonce>(&close_tag_ref().to_bytes()).is_ok() {
+            c.violation("C18 decoded-nonce-equals-close-tag", json!({}));
+        }
+        for d in [Scalar::one(), -Scalar::one()] {
+            c.eval();
+            let v = (close_tag_ref() + d).to_bytes();
+            match dec::<zk::Nonce>(&v) {
+                Ok(n) if enc(&n) == v => c.count("near_tag_nonces_decoded", 1),
+                _ => c.violation("C18 neighbour-of-close-tag-rejected-as-nonce", json!({"value": hex(&v)})),
+            }
+        }
+    });
+}
+
+fn requested_new(c: &mut Ctx, m: &'static Merchant) {
+    let name = "nonce/Requested::new";
+    c.case(name, |c| {
+        let mut rng = c.rng(name);
+        let cid = new_channel_id(m, &mut rng, b"m", b"c");
+        let seed = seed_of(&mut rng);
+        // dry run: where are the 64-byte draws?
+        let mut dry = ScriptRng::new(seed);
+        let (s0, _p0) = match Sess::request(m, &mut dry, cid, 10, 20, b"c18") {
+            Ok(x) => x,
+            Err(e) => return c.inconclusive(&e),
+        };
+        let draws64 = dry.draws_of_len(64);
+        let base_draws = dry.draws();
+        c.note("Requested::new_scalar_draws", json!(draws64.len()));
+        let _ = s0;
+        let mut redrawn = 0;
+        for &d in &draws64 {
+            for k in 1..=c.tier.pick(1usize, 3) {
+                let mut r = ScriptRng::new(seed);
+                for i in 0..k {
+                    r.inject(d + i, tag_pattern());
+                }
+                c.eval();
+                c.distinct(&format!("Requested::new/draw{}/x{}", d, k));
+                let res = guard(|| Sess::request(m, &mut r, cid, 10, 20, b"c18"));
+                let (s, proof) = match res {
+                    Ok(Ok(x)) => x,
+                    Ok(Err(e)) => {
+                        c.inconclusive(&e);
+                        continue;
+                    }
+                    Err(p) => {
+                        c.violation(&format!("C18 panic-under-crafted-rng call=Requested::new loc={}", repo_rel(&p.location)), json!({"draw": d, "panic": p.message}));
+                        continue;
+                    }
+                };
+                if r.consumed == 0 {
+                    c.inconclusive("C18: injection not consumed by Requested::new");
+                    continue;
+                }
+                let Stage::Requested(rq) = &s.stage else { continue };
+                let nonce = trace(rq).and_then(|t| t.fget("state/nonce"));
+                match nonce {
+                    Ok(nb) if is_tag(&nb) => c.violation("C18 generated-nonce-equals-close-tag call=Requested::new", json!({"draw": d, "in_a_row": k})),
+                    Ok(_) => {
+                        if r.draws() > base_draws {
+                            redrawn += 1;
+                        }
+                        // the proof made from the re-drawn state is still accepted
+                        if k == 1 {
+                            let mut s = s;
+                            match s.m_initialize(&mut rng, 10, 20, &proof, b"c18") {
+                                Ok(Some(_)) => c.count("proofs_after_redraw_accepted", 1),
+                                _ => c.violation("C18 establish-proof-rejected-under-crafted-rng", json!({"draw": d})),
+                            }
+                        }
+                    }
+                    Err(e) => c.inconclusive(&e),
+                }
+            }
+        }
+        c.count("Requested::new_runs_with_extra_draw", redrawn);
+        if redrawn == 0 {
+            c.inconclusive("C18: no injected run of Requested::new took the rejection path (no extra draw observed)");
+        }
+    });
+}
+
+fn ready_start(c: &mut Ctx, m: &'static Merchant) {
+    let states = c.tier.pick(2usize, 12);
+    for si in 0..states {
+        // fixture for this state
+        let mut frng = Ctx::fixture_rng(c.seed, &format!("c18/ready/{}", si));
+        let sess = Sess::open(m, &mut frng, 100 + si as u64, 50, b"c18");
+        let ready_bytes = match sess {
+            Ok(s) => s.stage.bytes(),
+            Err(e) => return c.inconclusive(&e),
+        };
+        let seed = seed_of(&mut frng);
+        let start = |r: &mut ScriptRng| -> Result<(Vec<u8>, Vec<u8>, Vec<u8>), String> {
+            let rd: zk::customer::Ready = dec(&ready_bytes)?;
+            match rd.start(r, amount(3)?, &Context::new(b"c18"), &m.ccfg) {
+                Ok((st, msg)) => {
+                    let t = trace(&st)?;
+                    Ok((t.fget("new_state/nonce")?, enc(&msg.nonce), enc(&msg.pay_proof)))
+                }
+                Err((_, e)) => Err(format!("{:?}", e)),
+            }
+        };
+        let mut dry = ScriptRng::new(seed);
+        if let Err(e) = start(&mut dry) {
+            return c.inconclusive(&e);
+        }
+        let draws64 = dry.draws_of_len(64);
+        let base_draws = dry.draws();
+        c.note("Ready::start_scalar_draws", json!(draws64.len()));
+        // quick: the first draws (where the state is created) and a spread of the others
+        let picks: Vec<usize> = if c.tier == crate::ctx::Tier::Quick {
+            draws64.iter().enumerate().filter(|(i, _)| *i < 4 || i % 16 == 5).map(|(_, d)| *d).collect()
+        } else {
+            draws64.clone()
+        };
+        for d in picks {
+            let name = format!("nonce/Ready::start/state{}/draw{}", si, d);
+            c.case(&name, |c| {
+                let mut r = ScriptRng::new(seed);
+                r.inject(d, tag_pattern());
+                c.eval();
+                c.distinct(&name);
+                match guard(|| start(&mut r)) {
+                    Ok(Ok((new_nonce, old_nonce, _proof))) => {
+                        if r.consumed == 0 {
+                            return c.inconclusive("C18: injection not consumed by Ready::start");
+                        }
+                        if is_tag(&new_nonce) || is_tag(&old_nonce) {
+                            c.violation("C18 generated-nonce-equals-close-tag call=Ready::start", json!({"draw": d}));
+                        }
+                        if r.draws() > base_draws {
+                            c.count("Ready::start_runs_with_extra_draw", 1);
+                        }
+                        c.count("Ready::start_runs_injected", 1);
+                    }
+                    Ok(Err(e)) => c.inconclusive(&e),
+                    Err(p) => c.violation(&format!("C18 panic-under-crafted-rng call=Ready::start loc={}", repo_rel(&p.location)), json!({"draw": d, "panic": p.message})),
+                }
+            });
+        }
+    }
+}
+
+/// every nonce atom of every state of honest histories differs from the close tag
+fn histories(c: &mut Ctx, m: &'static Merchant) {
+    for h in 0..c.tier.pick(6usize, 60) {
+        let name = format!("history{}", h);
+        c.case(&name, |c| {
+            let mut rng = c.rng(&name);
+            let mut s = match Sess::open(m, &mut rng, 1000, 1000, b"c18h") {
+                Ok(s) => s,
+                Err(e) => return c.inconclusive(&e),
+            };
+            for p in 0..3 {
+                let check = |c: &mut Ctx, s: &Sess| {
+                    let t = match &s.stage {
+                        Stage::Ready(x) => trace(x),
+                        Stage::Started(x) => trace(x),
+                        Stage::Locked(x) => trace(x),
+                        _ => return,
+                    };
+                    if let Ok(t) = t {
+                        for a in t.atoms.iter().filter(|a| a.path.contains("Nonce")) {
+                            c.eval();
+                            if is_tag(t.atom_bytes(a)) {
+                                c.violation("C18 state-nonce-equals-close-tag", json!({"stage": s.stage.name(), "atom": a.path}));
+                            }
+                            c.count("state_nonce_atoms_checked", 1);
+                        }
+                    }
+                };
+                check(c, &s);
+                c.distinct(&format!("{}/payment{}", name, p));
+                // token / closing signature separation on this state
+                if let Stage::Ready(r) = &s.stage {
+                    separation(c, m, r, &mut rng);
+                }
+                if s.pay(&mut rng, amount(5 - 4 * p as i64).unwrap(), b"c18h").map(|r| r.is_ok()) != Ok(true) {
+                    return c.inconclusive("C18: honest payment failed");
+                }
+            }
+        });
+    }
+}
+
+fn separation(c: &mut Ctx, m: &'static Merchant, r: &zk::customer::Ready, rng: &mut (impl RngCore + rand_core::CryptoRng)) {
+    let Ok(t) = trace(r) else { return c.inconclusive("C18: trace") };
+    let g = |p: &str| t.fget(p);
+    let (Ok(cid), Ok(nonce), Ok(lock), Ok(cb), Ok(mb)) = (g("state/channel_id"), g("state/nonce"), g("state/revocation_pair/lock"), g("state/customer_balance"), g("state/merchant_balance")) else {
+        return c.inconclusive("C18: Ready layout");
+    };
+    let st = [raw32_to_scalar(&cid), sc(&nonce).unwrap_or_default(), sc(&lock).unwrap_or_default(), Scalar::from(le64(&cb)), Scalar::from(le64(&mb))];
+    let cl = [st[0], close_tag_ref(), st[2], st[3], st[4]];
+    let tok = (g1(&g("pay_token/sigma1").unwrap_or_default()), g1(&g("pay_token/sigma2").unwrap_or_default()));
+    let cs = (g1(&g("close_state_signature/sigma1").unwrap_or_default()), g1(&g("close_state_signature/sigma2").unwrap_or_default()));
+    let ((Some(t1), Some(t2)), (Some(c1), Some(c2))) = (tok, cs) else { return c.inconclusive("C18: signatures") };
+    // reference view
+    c.eval();
+    let ok = ps_verify_ref(&m.pk, &t1, &t2, &st) && ps_verify_ref(&m.pk, &c1, &c2, &cl);
+    if !ok {
+        return c.inconclusive("C18: the customer's own signatures do not verify by the reference (C04's subject)");
+    }
+    if ps_verify_ref(&m.pk, &t1, &t2, &cl) || ps_verify_ref(&m.pk, &c1, &c2, &st) {
+        c.violation("C18 signatures-interchangeable-by-reference", json!({}));
+    }
+    // the pay token re-labelled as closing signature for the close state sharing its other fields
+    match copy(r).map(|r2| r2.close(rng)) {
+        Ok(cm) => {
+            let Ok(mut ct) = trace(&cm) else { return };
+            // positive control
+            c.eval();
+            let accept = |b: &[u8]| -> Option<bool> {
+                let cm: ClosingMessage = dec(b).ok()?;
+                let (sig, stt) = cm.into_parts();
+                Some(matches!(m.cfg.check_close_signature(sig, &stt), Verification::Verified))
+            };
+            if accept(&ct.bytes) != Some(true) {
+                return c.inconclusive("C18: honest closing message not accepted");
+            }
+            let _ = ct.fset("close_signature/sigma1", &t1.to_compressed());
+            let _ = ct.fset("close_signature/sigma2", &t2.to_compressed());
+            c.eval();
+            match accept(&ct.bytes) {
+                Some(false) => c.count("pay_token_refused_as_closing_signature", 1),
+                Some(true) => c.violation("C18 pay-token-accepted-as-closing-signature", json!({})),
+                None => c.inconclusive("C18: relabelled closing message does not decode"),
+            }
+        }
+        Err(e) => c.inconclusive(&e),
+    }
+    // the closing signature re-labelled as pay token: the customer then cannot get a payment approved
+    let mut rt = t.clone();
+    let _ = rt.fset("pay_token/sigma1", &c1.to_compressed());
+    let _ = rt.fset("pay_token/sigma2", &c2.to_compressed());
+    match dec::<zk::customer::Ready>(&rt.bytes) {
+        Ok(r2) => match r2.start(rng, amount(1).unwrap(), &Context::new(b"c18swap"), &m.ccfg) {
+            Ok((_st, msg)) => {
+                c.eval();
+                let acc = m.cfg.allow_payment(rng, amount(1).unwrap(), &msg.nonce, msg.pay_proof, &Context::new(b"c18swap")).is_some();
+                if acc {
+                    c.violation("C18 closing-signature-accepted-as-pay-token", json!({}));
+                } else {
+                    c.count("closing_signature_refused_as_pay_token", 1);
+                }
+            }
+            Err(_) => c.inconclusive("C18: start refused"),
+        },
+        Err(e) => c.inconclusive(&e),
+    }
+}
+
+fn channel_id(c: &mut Ctx, m: &'static Merchant, m2: &'static Merchant) {
+    c.case("channel-id", |c| {
+        let mut rng = c.rng("channel-id");
+        for k in 0..c.tier.pick(60, 1000) {
+            let mut mr = [0u8; 32];
+            let mut cr = [0u8; 32];
+            rng.fill_bytes(&mut mr);
+            rng.fill_bytes(&mut cr);
+            let mut mi = vec![0u8; (rng.next_u32() % 40) as usize];
+            let mut ci = vec![0u8; (rng.next_u32() % 40) as usize];
+            rng.fill_bytes(&mut mi);
+            rng.fill_bytes(&mut ci);
+            let mk = |mr: &[u8; 32], cr: &[u8; 32], pk: &zk::PublicKey, mi: &[u8], ci: &[u8]| -> Option<[u8; 32]> {
+                let a: MerchantRandomness = dec(mr).ok()?;
+                let b: CustomerRandomness = dec(cr).ok()?;
+                Some(ChannelId::new(a, b, pk, mi, ci).to_bytes())
+            };
+            let pk = m.ccfg.merchant_public_key();
+            let Some(base) = mk(&mr, &cr, pk, &mi, &ci) else { return c.inconclusive("C18: randomness does not decode") };
+            c.eval();
+            c.distinct(&format!("cid/{}", k));
+            if mk(&mr, &cr, pk, &mi, &ci) != Some(base) || mk(&mr, &cr, &dec(&enc(pk)).unwrap(), &mi.clone(), &ci.clone()) != Some(base) {
+                c.violation("C18 channel-id-not-deterministic", json!({}));
+            }
+            // exactly one input changed
+            let mut mr2 = mr;
+            mr2[(rng.next_u32() % 32) as usize] ^= 1 << (rng.next_u32() % 8);
+            let mut cr2 = cr;
+            cr2[(rng.next_u32() % 32) as usize] ^= 1 << (rng.next_u32() % 8);
+            let mut mi2 = mi.clone();
+            if mi2.is_empty() { mi2.push(0) } else { let l = mi2.len(); mi2[(rng.next_u32() as usize) % l] ^= 1 }
+            let mut ci2 = ci.clone();
+            if ci2.is_empty() { ci2.push(0) } else { let l = ci2.len(); ci2[(rng.next_u32() as usize) % l] ^= 1 }
+            let mut mi3 = mi.clone();
+            mi3.push(7);
+            let mut ci3 = ci.clone();
+            ci3.push(7);
+            let variants: Vec<(&str, Option<[u8; 32]>)> = vec![
+                ("merchant-randomness", mk(&mr2, &cr, pk, &mi, &ci)),
+                ("customer-randomness", mk(&mr, &cr2, pk, &mi, &ci)),
+                ("public-key", mk(&mr, &cr, m2.ccfg.merchant_public_key(), &mi, &ci)),
+                ("merchant-account-info-byte", mk(&mr, &cr, pk, &mi2, &ci)),
+                ("customer-account-info-byte", mk(&mr, &cr, pk, &mi, &ci2)),
+                ("merchant-account-info-longer", mk(&mr, &cr, pk, &mi3, &ci)),
+                ("customer-account-info-longer", mk(&mr, &cr, pk, &mi, &ci3)),
+            ];
+            for (what, v) in variants {
+                c.eval();
+                if v == Some(base) {
+                    c.violation(&format!("C18 channel-id-unchanged input={}", what), json!({"input": what}));
+                } else {
+                    c.count(&format!("channel_id_changed[{}]", what), 1);
+                }
+            }
+            // information only: the harness's own recomputation of the derivation
+            if k == 0 {
+                use sha3::{Digest, Sha3_256};
+                let mut h = Sha3_256::new();
+                h.update(mr);
+                h.update(cr);
+                h.update(pk.to_bytes());
+                h.update(&mi);
+                h.update(&ci);
+                let d = h.finalize();
+                c.note("channel_id_equals_sha3_of_concatenation(information only)", json!(d.as_slice() == base));
+                c.sample(json!({"channel_id": hex(&base), "merchant_randomness": hex(&mr), "customer_randomness": hex(&cr), "merchant_info_len": mi.len(), "customer_info_len": ci.len()}));
+            }
+        }
+    });
+}
 
 pub fn run(c: &mut Ctx) {
-    c.inconclusive("C18: monitor not written yet");
+    c.note("rule", json!("nonce generation under RNG streams that sample the close tag (32 tag bytes || 32 zero bytes) at every 64-byte draw of test_new_nonce / Requested::new (1-4 times in a row) and of Ready::start (quick: first draws and a spread; thorough: all), with the draw log proving the rejection path was taken; every nonce atom of every state of honest histories; pay token re-labelled as closing signature and closing signature re-labelled as pay token on every Ready state; channel id: identical inputs and exactly-one-input changes. Distinct = distinct (call, draw index, repetitions) injections consumed, distinct states and channel-id input sets."));
+    let m = match fixtures::merchant(c.seed, "m0") {
+        Ok(m) => m,
+        Err(e) => return c.inconclusive(&e),
+    };
+    let m2 = match fixtures::merchant(c.seed, "m1") {
+        Ok(m) => m,
+        Err(e) => return c.inconclusive(&e),
+    };
+    nonce_generation(c);
+    requested_new(c, m);
+    ready_start(c, m);
+    histories(c, m);
+    channel_id(c, m, m2);
 }
